@@ -46,7 +46,7 @@ PROPS = {
         assumptions=['symbolic cryptography in the mint model: a C field is genuine iff it is the term CSig keyset amount secret (one-more unforgeability of BDHKE, collision resistance of hash_to_curve); the algebra itself is C10', 'each storage.MintDB call is atomic and durable once it returns (SQLite); PRIMARY KEY/UNIQUE as in the migrations', 'the Lightning backend is the scripted lightning.Client of the harness; real LND/CLN adapters are not executed']),
     'C02': dict(
         file='Props/C02.v',
-        streams=[('c02-hist', 'tie'), ('c07-cuts', 'tie')],
+        streams=[('c02-hist', 'tie'), ('c07-cuts', 'tie'), ('c09-fees', 'tie')],
         assumptions=['symbolic cryptography in the mint model: a C field is genuine iff it is the term CSig keyset amount secret (one-more unforgeability of BDHKE, collision resistance of hash_to_curve); the algebra itself is C10', 'each storage.MintDB call is atomic and durable once it returns (SQLite); PRIMARY KEY/UNIQUE as in the migrations', 'the Lightning backend is the scripted lightning.Client of the harness; real LND/CLN adapters are not executed']),
     'C03': dict(
         file='Props/C03.v',
@@ -62,7 +62,7 @@ PROPS = {
         assumptions=['symbolic cryptography in the mint model: a C field is genuine iff it is the term CSig keyset amount secret (one-more unforgeability of BDHKE, collision resistance of hash_to_curve); the algebra itself is C10', 'each storage.MintDB call is atomic and durable once it returns (SQLite); PRIMARY KEY/UNIQUE as in the migrations', 'the Lightning backend is the scripted lightning.Client of the harness; real LND/CLN adapters are not executed']),
     'C09': dict(
         file='Props/C09.v',
-        streams=[('c09-hist', 'tie'), ('c09-keygen', 'pure')],
+        streams=[('c09-hist', 'tie'), ('c09-keygen', 'pure'), ('c09-fees', 'tie')],
         assumptions=['symbolic cryptography in the mint model: a C field is genuine iff it is the term CSig keyset amount secret (one-more unforgeability of BDHKE, collision resistance of hash_to_curve); the algebra itself is C10', 'each storage.MintDB call is atomic and durable once it returns (SQLite); PRIMARY KEY/UNIQUE as in the migrations', 'the Lightning backend is the scripted lightning.Client of the harness; real LND/CLN adapters are not executed']),
     'C15': dict(
         file='Props/C15.v',
